@@ -15,6 +15,14 @@ def check_cap_usage():
     return ok, uses
 
 def obligations(tier, sc):
+    # C01 is stated per thread: the one-step obligations below reason about ONE thread's buffer and file.  That
+    # transfers to concurrent threads only if the runtime keeps no state with static storage duration besides the
+    # process descriptor and the _Thread_local thread descriptor (C11's structural guard; fails closed, exit 2).
+    from checks import C11 as _c11
+    sh = _c11.shared_statics()
+    if sh:
+        raise RuntimeError("objects with static storage duration in the runtime are shared by all threads; the per-thread "
+                           "argument of C01 does not cover concurrent threads any more: %r" % sh)
     ok, uses = check_cap_usage()
     if not ok:
         raise RuntimeError("OVNI_MAX_EV_BUF is used in a way the re-scaling argument does not cover: %r" % uses)
